@@ -2,9 +2,10 @@
 (* C10, binding of Publisher.tla to publisher.go at hook grain.  drv c10 direct forces every behaviour written by
    Gen_PublisherSched on the real publisher (the publishing goroutine parked at p.publish.snap / p.publish.deliver) and writes what
    really happened, one line per step, in real order:
-     [e |-> "reset", n |-> number of initial subscriptions, mode]     a fresh publisher with Subs registered
+     [e |-> "reset", n |-> number of initial subscriptions, mode, h]  a fresh publisher with Subs registered (h: SubscribeOn(handler) is set:
+                                                                      deliveries are posted; the director waits for each to have run)
      [e |-> "start"]                 the publishing goroutine took its snapshot (parked at p.publish.snap)
-     [e |-> "deliver", s, n]         OnNext of subscription s ran (n = value received - value expected: 0)
+     [e |-> "deliver", s, n, thr]    OnNext of subscription s ran (n = value received - value expected: 0; thr = "h" on the handler's goroutine)
      [e |-> "unsub" | "sub", s]      a list change completed (other goroutine while the publisher is parked, or inside the callback)
      [e |-> "end", final]            Publish returned; final = what a second Publish then delivered, in order
      [e |-> "lost"]                  the publishing goroutine neither reached a hook point nor returned
@@ -14,15 +15,16 @@
    the call is a drift of the model ("DRIFT", advisory); everything else is a violation ("MISMATCH").                          *)
 EXTENDS MC_Publisher, Json, IOUtils
 Trace == ndJsonDeserialize(IOEnv.VERIF_TRACE)
-VARIABLES l, bad, obs, chg, reg, nbad, run
-tvars == <<vars, l, bad, obs, chg, reg, nbad, run>>
+VARIABLES l, bad, obs, chg, reg, nbad, run, onh, hv
+tvars == <<vars, l, bad, obs, chg, reg, nbad, run, onh, hv>>
 Ev == Trace[l]
 Remove(sq, s) == LET P == {i \in DOMAIN sq : sq[i] = s} IN
                  IF P = {} THEN sq ELSE LET i == CHOOSE i \in P : \A j \in P : i <= j IN SubSeq(sq, 1, i - 1) \o SubSeq(sq, i + 1, Len(sq))
 Cnt(sq, s) == Cardinality({i \in DOMAIN sq : sq[i] = s})
 PosIn(s) == CHOOSE p \in DOMAIN Subs : Subs[p] = s
 Rules(o, c, r, fin) ==
-  IF \E i \in DOMAIN o : o[i] \notin SubSet \cup {Extra} THEN "something that is not a subscription was invoked"
+  IF hv THEN "a delivery did not run on the SubscribeOn handler"
+  ELSE IF \E i \in DOMAIN o : o[i] \notin SubSet \cup {Extra} THEN "something that is not a subscription was invoked"
   ELSE IF \E s \in SubSet \cup {Extra} : Cnt(o, s) > 1 THEN "a subscription was invoked twice for one value"
   ELSE IF \E s \in SubSet \ c : Cnt(o, s) # 1 THEN "a subscription that was registered throughout the call was skipped"
   ELSE IF \E i, j \in DOMAIN o : i < j /\ o[i] \in SubSet /\ o[j] \in SubSet /\ PosIn(o[i]) > PosIn(o[j]) THEN "not in subscription order"
@@ -32,9 +34,11 @@ ResetModel == LET r == Build([a \in {0} |-> <<>>], [arr |-> 0, len |-> 0], 1, Su
               /\ arrays' = r.arrays /\ subs' = r.subs /\ nextArr' = r.na
               /\ pc' = "idle" /\ snap' = [arr |-> 0, len |-> 0] /\ idx' = 0 /\ log' = <<>> /\ removed' = {} /\ added' = {} /\ changes' = 0
 Leave(why) == bad' = (IF bad = "" THEN why ELSE bad) /\ UNCHANGED vars
-TInit == Init /\ l = 1 /\ bad = "" /\ obs = <<>> /\ chg = {} /\ reg = Subs /\ nbad = 0 /\ run = 0
+TInit == Init /\ l = 1 /\ bad = "" /\ obs = <<>> /\ chg = {} /\ reg = Subs /\ nbad = 0 /\ run = 0 /\ onh = FALSE /\ hv = FALSE
 TNext ==
   /\ l <= Len(Trace) /\ l' = l + 1
+  /\ onh' = (IF Ev.e = "reset" THEN Ev.h ELSE onh)
+  /\ hv' = (IF Ev.e = "reset" THEN FALSE ELSE IF Ev.e = "deliver" /\ onh /\ Ev.thr # "h" THEN TRUE ELSE hv)
   /\ LET e == Ev IN
      CASE e.e = "reset" -> /\ ResetModel /\ bad' = (IF e.n = Len(Subs) THEN "" ELSE "wrong configuration") /\ obs' = <<>> /\ chg' = {} /\ reg' = Subs
                            /\ run' = e.run /\ UNCHANGED nbad
